@@ -15,9 +15,21 @@ Scalar-polymorphic (core Lean only): `Float` in the driver, an ordered field in 
 `sqrt` is a parameter (`math.sqrt`). Python's `ZeroDivisionError` (float division by `±0.0`) and
 `UnboundLocalError` are explicit results. `x == 0` is written `x ≤ 0 ∧ 0 ≤ x` (same truth value on
 IEEE doubles, NaN included, and on an ordered field), `math.fabs v` is `if 0 < v then v else 0 - v`
-(same value on doubles, `-0.0` included). The sentinel `distmin = 1e400` (= +inf) is the state
-`none`: every distance is `<` it (differs from the code only for a distance that is itself
-inf/NaN, which no generated input produces). -/
+(same value on doubles, `-0.0` included).
+
+The sentinel `distmin = 1e400` (= +inf), two forms (last part of the file):
+* `better / polyLoop / projPolyligne / polyLoopXY / projPolyligneXY` (the `none`-state forms): the sentinel is
+  the state `none` and EVERY distance is `<` it. This is the form the theorems of `Props/C20.lean` (and C10, through
+  `Model/MapMatch`) are about, and it is NOT what the code does on a distance that is itself `inf`/NaN.
+* `betterS / polyLoopS / projPolyligneS / polyLoopXYS / projPolyligneXYS` (the sentinel-faithful S-forms, taking
+  the sentinel `inf : α` as a parameter): the state `none` compares `dist < inf` as the code does (`dist < distmin` with
+  `distmin = 1e400`), so an input whose distances are all `inf`/NaN keeps nothing and raises `UnboundLocalError`
+  (e.g. `proj_polyligne([0, 1, 2], [0, 1, 0], inf, 0)`). These are what the code does: `Tie/C20.lean`
+  `tie_proj_polyligne_exact` proves the translation of the current source equal to `projPolyligneXYS` on ALL inputs,
+  and the driver (`Drv/C20.lean`) answers `proj_polyligne` requests with them (`inf := 1.0 / 0.0` at `Float`).
+The two forms agree whenever every distance the loop meets is `< inf` (`Lemmas/ProjSentinel.lean`
+`projPolyligneXYS_eq`, `projPolyligneS_eq`): finite distances on doubles, any `inf` above the distances in an
+ordered field. -/
 namespace TV.Proj
 
 inductive Err where
@@ -270,6 +282,73 @@ def mapOnTrack3 (sqrt : α → α) (eps : α) (pts : List (α × α × α)) :
       Except ErrX (((α × α × α) × α × Nat) ⊕ List ((α × α × α) × α × Nat))
   | .inl q => (projOnTrack3 sqrt eps pts q).map .inl
   | .inr qs => (mapOnTrack3All sqrt eps pts qs).map .inr
+
+end
+
+/-! ## Sentinel-faithful forms (added; nothing above is changed)
+
+The code initialises `distmin = 1e400` (the double `+inf`) and tests `dist < distmin`. The forms below take the sentinel
+`inf : α` as a parameter and evaluate that test literally: while nothing is kept (state `none`) the comparison is
+`dist < inf`; once a segment is kept (state `some c`) it is `dist < c.1`, `c.1` being the current `distmin`. Everything
+else is, line for line, `polyLoop / projPolyligne / polyLoopXY / projPolyligneXY` above. -/
+
+section
+variable {α : Type} [Add α] [Sub α] [Mul α] [Div α] [Neg α] [LT α] [LE α]
+  [DecidableLT α] [DecidableLE α] [OfNat α 0]
+
+/-- `dist < distmin` as the code evaluates it: `distmin` is the sentinel `inf` (`1e400`) until a segment is kept -/
+def betterS (inf dist : α) : Option (α × α × α × Nat) → Bool
+  | none => decide (dist < inf)
+  | some cur => decide (dist < cur.1)
+
+/-- the loop of `proj_polyligne` on a vertex list, sentinel-faithful (`polyLoop` with `betterS inf`) -/
+def polyLoopS (inf : α) (sqrt : α → α) (eps x y : α) :
+    List (α × α) → Nat → Option (α × α × α × Nat) → Except Err (Option (α × α × α × Nat))
+  | [], _, cur => .ok cur
+  | [_], _, cur => .ok cur
+  | p1 :: p2 :: rest, i, cur =>
+    if skipped eps p1.1 p1.2 p2.1 p2.2 then polyLoopS inf sqrt eps x y (p2 :: rest) (i + 1) cur
+    else
+      match projSegment sqrt p1.1 p1.2 p2.1 p2.2 x y with
+      | .error e => .error e
+      | .ok r =>
+        let cur' := if betterS inf r.1 cur then some (r.1, r.2.1, r.2.2, i) else cur
+        polyLoopS inf sqrt eps x y (p2 :: rest) (i + 1) cur'
+
+/-- `proj_polyligne(Xp, Yp, x, y)` on a vertex list, sentinel-faithful: `UnboundLocalError` when no segment has a
+distance `< inf` (none kept, or all distances `inf`/NaN) -/
+def projPolyligneS (inf : α) (sqrt : α → α) (eps : α) (pts : List (α × α)) (x y : α) :
+    Except Err (α × α × α × Nat) :=
+  match polyLoopS inf sqrt eps x y pts 0 none with
+  | .error e => .error e
+  | .ok none => .error .unbound
+  | .ok (some r) => .ok r
+
+/-- the loop of `proj_polyligne(Xp, Yp, x, y)` on its two sequences, sentinel-faithful (`polyLoopXY` with `betterS inf`) -/
+def polyLoopXYS (np : Bool) (inf : α) (sqrt : α → α) (eps x y : α) :
+    List α → List α → Nat → Option (α × α × α × Nat) → Except ErrX (Option (α × α × α × Nat))
+  | [], _, _, cur => .ok cur
+  | [_], _, _, cur => .ok cur
+  | x1 :: x2 :: xs, ys, i, cur =>
+    match ys with
+    | y1 :: y2 :: ys' =>
+      if skipped eps x1 y1 x2 y2 then polyLoopXYS np inf sqrt eps x y (x2 :: xs) (y2 :: ys') (i + 1) cur
+      else
+        match projSegmentG np sqrt x1 y1 x2 y2 x y with
+        | .error e => .error (.base e)
+        | .ok r =>
+          let cur' := if betterS inf r.1 cur then some (r.1, r.2.1, r.2.2, i) else cur
+          polyLoopXYS np inf sqrt eps x y (x2 :: xs) (y2 :: ys') (i + 1) cur'
+    | _ => .error .index
+
+/-- `proj_polyligne(Xp, Yp, x, y)` on its two sequences, sentinel-faithful (`inf` is the code's `1e400`): this is the
+function the translation of the current source is equal to on ALL inputs (`Tie/C20.lean` `tie_proj_polyligne_exact`) -/
+def projPolyligneXYS (np : Bool) (inf : α) (sqrt : α → α) (eps : α) (X Y : List α) (x y : α) :
+    Except ErrX (α × α × α × Nat) :=
+  match polyLoopXYS np inf sqrt eps x y X Y 0 none with
+  | .error e => .error e
+  | .ok none => .error (.base .unbound)
+  | .ok (some r) => .ok r
 
 end
 end TV.Proj
